@@ -8,10 +8,14 @@ CONSTANTS
   MaxRestarts = 0
   MaxFail = 2
   ChunkSizes = {1, 2, 10}
+  MaxWriteFail = 1
+  CatchUpWriteErrorFatal = TRUE
+  SwallowWriteError = FALSE
+  AnnounceBeforeWrite = FALSE
   FinalityAfterNotices = TRUE
 INIT Init
 NEXT Next
 VIEW view
-INVARIANTS TypeOK StoredFinalisedCanonical BufferSane ChainSane
-PROPERTIES SetHeadExact OnlySetHeadWrites Monotone RestartIsNoOp
+INVARIANTS TypeOK StoredFinalisedCanonical BufferSane ChainSane AnnouncedIsRecorded
+PROPERTIES SetHeadExact RunningImpliesRecorded StopOnlyOnWriteFailure OnlySetHeadWrites Monotone RestartIsNoOp
 CHECK_DEADLOCK FALSE
